@@ -29,7 +29,7 @@ ASSUMPTIONS = ['statements inside the standard library are not preemption points
                'every thread is a fresh thread or a worker serving requests one after another; the application object is the module default app (redirect needs it)']
 
 KINDS = ['echo', 'post', 'raise_resp', 'abort', 'crash', 'nf', 'na', 'big', 'redirect', 'gen', 'multipart', 'json', 'chunked', 'noname_json',
-         'chunked_form', 'echo10', 'redirect10']
+         'chunked_form', 'echo10', 'redirect10', 'session']
 _APP = {}
 
 
@@ -123,11 +123,20 @@ def get_app():
         rs.set_cookie('j', str(j.get('m')), secret='k')
         return '|'.join(map(str, (j, rq.get_cookie('sj', secret='k'), rq.query.get('m'))))
 
+    def session():
+        # read the signed session value, change it in place, sign it again (every client sends the same cookie bytes)
+        sess = rq.get_cookie('sess', secret='k') or {'n': 0, 'log': []}
+        sess['n'] += 1
+        sess['log'].append(rq.query.get('m'))
+        rs.set_cookie('sess', sess, secret='k')
+        return 'session=%r' % (sess,)
+
     # application-wide hooks read and write the shared objects too
     app.add_hook('before_request', lambda: rs.headers.__setitem__('X-Hook-Before', rq.query_string + '@' + rq.path))
     app.add_hook('after_request', lambda: rs.headers.__setitem__('X-Hook-After', rq.method + ' ' + rq.path + '?' + rq.query_string) if rs._headers is not None else None)
     app.on_route('/echo', lambda prefix: rs.headers.__setitem__('X-Route-Hook', prefix + '|' + rq.query_string))
 
+    app.route('/session', 'GET', session)
     app.route('/mp', 'POST', multipart)
     app.route('/json', 'POST', json_)
     app.route('/echo/<x>', 'GET', lambda x: echo() + '|' + x)
@@ -192,6 +201,9 @@ def make_env(kind, m):
         return make_environ('GET', '/echo/' + m, qs='m=' + m, headers={'X-M': m, 'Cookie': 'c=' + m, 'Host': m + '.example:8080'}, flavour='http10')
     if kind == 'redirect10':
         return make_environ('GET', '/redirect', qs='m=' + m, headers={'Host': m + '.example'}, flavour='http10')
+    if kind == 'session':
+        from ombott.common_helpers import cookie_encode
+        return make_environ('GET', '/session', qs='m=' + m, headers={'Cookie': 'sess="' + cookie_encode(('sess', {'n': 1, 'log': ['start']}), 'k').decode() + '"'})
     if kind == 'gen':
         return make_environ('GET', '/gen/' + m, qs='m=' + m, headers={'X-M': m})
     raise ValueError(kind)
@@ -233,7 +245,7 @@ class Lab:
             res, info = self.sched.run([job(self.app, [(kind, m)])], [])
             assert res[0][0] == 'ok', res
             status = res[0][1][0][0]
-            expect_ok = kind in ('echo', 'post', 'raise_resp', 'gen', 'multipart', 'json', 'chunked', 'redirect', 'chunked_form', 'echo10', 'redirect10')
+            expect_ok = kind in ('echo', 'post', 'raise_resp', 'gen', 'multipart', 'json', 'chunked', 'redirect', 'chunked_form', 'echo10', 'redirect10', 'session')
             if expect_ok and not status.startswith(('2', '3')):
                 raise AssertionError(f'harness: kind {kind} is meant to succeed but answers {status} when served alone: {res[0][1][0][2][:200]!r}')
             # the reference itself must be clean: a request served alone cannot carry what earlier requests of this process brought
@@ -285,7 +297,7 @@ class Lab:
 
 PAIRS_QUICK = [('echo', 'echo'), ('echo', 'post'), ('raise_resp', 'echo'), ('crash', 'abort'), ('big', 'big'), ('nf', 'redirect'), ('gen', 'echo'), ('na', 'post'),
                ('multipart', 'json'), ('json', 'echo'), ('chunked', 'chunked'), ('chunked', 'post'), ('noname_json', 'noname_json'), ('multipart', 'multipart'),
-               ('chunked_form', 'chunked_form'), ('chunked_form', 'echo'), ('echo10', 'echo10'), ('redirect10', 'echo10')]
+               ('chunked_form', 'chunked_form'), ('chunked_form', 'echo'), ('echo10', 'echo10'), ('redirect10', 'echo10'), ('session', 'session')]
 
 
 def one_preemption(ctx, lab, a, b, stride=1):
